@@ -784,6 +784,16 @@ class Summaries:
                 return [(s2, some(rty, r)) for (s2, r) in call_closure(ctx, s, f, [p])]
             return fork_opt(ctx, ctx.args[0], lambda s, p: none(rty), on_some)
 
+        @reg('std::option::Option::<T>::map_or_else')
+        def _(ctx):
+            fd, f = ctx.args[1], ctx.args[2]
+            return fork_opt(ctx, ctx.args[0], lambda s, p: call_closure(ctx, s, fd, []), lambda s, p: call_closure(ctx, s, f, [p]))
+
+        @reg('std::option::Option::<T>::map_or')
+        def _(ctx):
+            d, f = ctx.args[1], ctx.args[2]
+            return fork_opt(ctx, ctx.args[0], lambda s, p: d, lambda s, p: call_closure(ctx, s, f, [p]))
+
         @reg('std::option::Option::<T>::and_then')
         def _(ctx):
             f = ctx.args[1]
@@ -1379,6 +1389,8 @@ class Summaries:
             s2 = ctx.st.fork()
             ctx.st.vn[('fact', key)] = True
             s2.vn[('fact', key)] = False
+            ctx.st.log(('branch', 'map.get.some', spath(path), k, ctx.t['span'].get('line'), ctx.fr.func if ctx.fr else None))
+            s2.log(('branch', 'map.get.none', spath(path), k, ctx.t['span'].get('line'), ctx.fr.func if ctx.fr else None))
             return [(ctx.st, some(rty, ref)), (s2, none(rty))]
 
         @reg('std::collections::HashMap::<K, V, S, A>::contains_key')
@@ -1451,8 +1463,8 @@ class Summaries:
             if cur is False:
                 return none(rty)
             s2 = ctx.st.fork()
-            ctx.st.log(('branch', 'map.remove.some', spath(path), k))
-            s2.log(('branch', 'map.remove.none', spath(path), k))
+            ctx.st.log(('branch', 'map.remove.some', spath(path), k, ctx.t['span'].get('line'), ctx.fr.func if ctx.fr else None))
+            s2.log(('branch', 'map.remove.none', spath(path), k, ctx.t['span'].get('line'), ctx.fr.func if ctx.fr else None))
             return [(ctx.st, some(rty, val)), (s2, none(rty))]
 
         @reg('std::collections::HashMap::<K, V, S, A>::entry')
@@ -1715,6 +1727,7 @@ class Summaries:
                 else:
                     facts = 'length unknown'
             ctx.oblige('bounds', 'Vec index < len', ok, facts)
+            log(ctx, 'vec.index', spath(path), i, c.prov)
             if c.known is not None and isinstance(i, NumV) and i.sym is None and 0 <= i.k < len(c.known):
                 root = ('H', 'tmp%d' % next(_c))
                 st.store[root] = c.known[i.k]
